@@ -280,6 +280,16 @@ def body_norm(case):
             want = np.max(np.sum(dense.matrix(a.cores), axis=0))   # maximum column sum of an operator
             lab.add('operator')
     close(np.asarray(got, dtype=float), want, TOL, max(scale, 1e-300), 'norm_value', 'norm(p=%d)' % case['p'])
+    if case['p'] == 2 and not spec.get('int_dtype') and all(c_.flags.writeable for c_ in a.cores):
+        # the same object after one of its cores was rescaled in place (the user owns the cores): value operations describe the
+        # tensor the object denotes NOW (a norm or a dense form remembered per object would not)
+        k = spec['seed'] % len(a.cores)
+        da = np.array(da)             # (the dense reference of an order-1 train can be a view of its only core)
+        a.cores[k] *= -2.5
+        got2 = a.norm(p=2)
+        close(np.asarray(got2, dtype=float), 2.5 * want, TOL, max(2.5 * scale, 1e-300), 'norm_value', 'norm(p=2) after core %d of the same object was rescaled in place' % k)
+        close(a.full().reshape(da.shape), -2.5 * da, TOL, max(2.5 * scale, 1e-300), 'full_value', 'full() after core %d of the same object was rescaled in place' % k)
+        lab.add('core_updated_in_place')
     return lab
 
 
